@@ -1,4 +1,4 @@
-import CardVerif.Spec.GinMeldRules
+import CardModel.Spec.GinMeldRules
 import CardVerif.Proofs.Ricky
 /-!
 # C19 — the gin ricky hand value follows the three-plus-four meld rule
